@@ -1,3 +1,212 @@
-/-! Model for property C10 (core Lean only; no Mathlib). -/
+/-! Model for property C10 (core Lean only; no Mathlib): singular-value truncation,
+`pytreenet/util/tensor_splitting.py` lines 183-388.
+
+* `checkParams`           ↔ `SVDParameters.check_truncation_parameters`
+* `valueTruncation`       ↔ `value_truncation`
+* `sumScan`/`sumTruncIndex` ↔ `_sum_truncation_index`
+* `sumTruncation`         ↔ `sum_truncation`
+* `renormalise`           ↔ `renormalise_singular_values`
+* `truncate`              ↔ `truncate_singular_values`
+
+Numbers are exact rationals.  Tolerances may be `-inf`/`+inf` (`Tol`); a *cutoff* computed from them may
+in addition be IEEE not-a-number (`-inf * 0.0`), which the code really produces for a zero spectrum
+(`Cut.nan`): every comparison with it is false, exactly as in Python.
+
+Square roots: the code itself never compares a root with the tolerance; it compares the (relative)
+*squared* tail weight `comp_val` with `thresh = total_tol**2` (`comp_val > thresh`).  The model does the
+same, so no root is needed.  For `total_tol ≥ 0`, `comp_val > total_tol²` is equivalent to
+`sqrt(comp_val) > total_tol` (both sides non-negative, squaring is strictly monotone there).  For a
+negative tolerance the two differ: `(-inf)**2 = +inf` (and `(-t)**2 = t²`), so `total_tol = -inf`
+does **not** switch the sum rule off but makes every tail fit: everything is discarded and the
+"keep the largest" branch is taken.  Negative finite tolerances are rejected by the constructor.
+-/
 namespace Ptn.C10
+
+/-! ### Extended numbers -/
+
+/-- A tolerance as the user can pass it: `-inf`, a finite number, `+inf`. -/
+inductive Tol where
+  | ninf
+  | fin (q : Rat)
+  | pinf
+deriving Repr, DecidableEq
+
+/-- A float that results from arithmetic on tolerances: additionally not-a-number. -/
+inductive Cut where
+  | nan
+  | ninf
+  | fin (q : Rat)
+  | pinf
+deriving Repr, DecidableEq
+
+def Tol.toCut : Tol → Cut
+  | .ninf => .ninf
+  | .fin q => .fin q
+  | .pinf => .pinf
+
+/-- IEEE product `t * x` of a tolerance with a finite number (`±inf * 0 = nan`). -/
+def Tol.mul (t : Tol) (x : Rat) : Cut :=
+  match t with
+  | .fin r => .fin (r * x)
+  | .ninf => if x = 0 then .nan else if 0 < x then .ninf else .pinf
+  | .pinf => if x = 0 then .nan else if 0 < x then .pinf else .ninf
+
+/-- IEEE square `t ** 2`. -/
+def Tol.sq : Tol → Cut
+  | .fin r => .fin (r * r)
+  | _ => .pinf
+
+/-- Python `b > a` on floats (false as soon as one side is nan). -/
+def Cut.gt (b a : Cut) : Bool :=
+  match b, a with
+  | .nan, _ => false
+  | _, .nan => false
+  | .ninf, _ => false
+  | .fin _, .ninf => true
+  | .fin p, .fin q => decide (q < p)
+  | .fin _, .pinf => false
+  | .pinf, .pinf => false
+  | .pinf, _ => true
+
+/-- Python's built-in `max(a, b)`: start with `a`, replace by `b` iff `b > a`.
+    Hence `max(nan, b) = nan`. -/
+def pyMax (a b : Cut) : Cut := if Cut.gt b a then b else a
+
+/-- `x > c` for a finite number `x` (NumPy elementwise comparison of the spectrum with the cutoff). -/
+def above (c : Cut) (x : Rat) : Bool := Cut.gt (.fin x) c
+
+/-! ### Parameters -/
+
+/-- What the caller can write for `max_bond_dim`. -/
+inductive BondArg where
+  | int (z : Int)
+  | inf
+  | otherFloat          -- any float that is not `+inf` (2.0, 2.5, -inf, nan): rejected by type
+deriving Repr, DecidableEq
+
+inductive Validation where
+  | ok
+  | typeError
+  | valueError (field : String)
+deriving Repr, DecidableEq
+
+/-- `(tol < 0) and (tol != float("-inf"))`. -/
+def Tol.rejected : Tol → Bool
+  | .fin q => decide (q < 0)
+  | _ => false
+
+/-- `check_truncation_parameters`, checks in the order of the code. -/
+def checkParams (b : BondArg) (rel tot : Tol) : Validation :=
+  match b with
+  | .otherFloat => .typeError
+  | .int z =>
+    if z ≤ 0 then .valueError "max_bond_dim"
+    else if rel.rejected then .valueError "rel_tol"
+    else if tot.rejected then .valueError "total_tol"
+    else .ok
+  | .inf =>
+    if rel.rejected then .valueError "rel_tol"
+    else if tot.rejected then .valueError "total_tol"
+    else .ok
+
+/-- An `SVDParameters` object. `maxBond = none` is `float("inf")`. -/
+structure Params where
+  maxBond : Option Nat := some 100
+  relTol : Tol
+  totalTol : Tol
+  renorm : Bool := false
+  sumTrunc : Bool := false
+  sumRenorm : Bool := true
+deriving Repr
+
+def Params.bondArg (p : Params) : BondArg :=
+  match p.maxBond with
+  | some d => .int d
+  | none => .inf
+
+/-- The object passed validation. -/
+def Params.Valid (p : Params) : Prop := checkParams p.bondArg p.relTol p.totalTol = .ok
+
+instance (p : Params) : Decidable p.Valid := by unfold Params.Valid; exact inferInstance
+
+/-! ### The selection rules -/
+
+/-- `value_truncation(s, total_tol, rel_tol)`; for the empty vector Python raises `IndexError`
+    at `s[0]` (`truncate` never calls it with one). -/
+def valueTruncation (s : List Rat) (tot rel : Tol) : List Rat :=
+  match s with
+  | [] => []
+  | s0 :: _ =>
+    let cutoff := pyMax (rel.mul s0) tot.toCut
+    s.filter (above cutoff)
+
+def normSq (s : List Rat) : Rat := (s.map fun x => x * x).sum
+
+/-- The `for i, s_val in enumerate(reversed(s))` loop: `rev` is what is left of the reversed
+    vector, `acc` is `trunc_sum`, `i` the loop index. Falling off the end returns 0. -/
+def sumScan (len : Nat) (normsq : Rat) (thresh : Cut) (norming : Bool) :
+    List Rat → Rat → Nat → Nat
+  | [], _, _ => 0
+  | x :: rest, acc, i =>
+    let acc' := acc + x * x
+    let comp := if norming then acc' / normsq else acc'
+    if above thresh comp then len - i
+    else sumScan len normsq thresh norming rest acc' (i + 1)
+
+/-- `_sum_truncation_index(s, total_tol, norming)`. -/
+def sumTruncIndex (s : List Rat) (tot : Tol) (norming : Bool) : Nat :=
+  let normsq := normSq s
+  if normsq = 0 then 0
+  else sumScan s.length normsq tot.sq norming s.reverse 0 0
+
+/-- `sum_truncation`. -/
+def sumTruncation (s : List Rat) (tot : Tol) (norming : Bool) : List Rat :=
+  s.take (sumTruncIndex s tot norming)
+
+/-- The kept vector as returned: numbers, or (renormalising a zero vector) `n` NaNs. -/
+inductive Kept where
+  | vals (l : List Rat)
+  | nans (n : Nat)
+deriving Repr, DecidableEq
+
+/-- `len(new_s)`: the new bond dimension. -/
+def Kept.length : Kept → Nat
+  | .vals l => l.length
+  | .nans n => n
+
+/-- `renormalise_singular_values(s, new_s)`: `new_s * sum(s) / sum(new_s)` elementwise, evaluated
+    left to right.  For non-negative input `sum(new_s) = 0` means all entries are zero and IEEE
+    gives `0 * x / 0 = nan` in every position. -/
+def renormalise (s newS : List Rat) : Kept :=
+  let normOld := s.sum
+  let normNew := newS.sum
+  if normNew = 0 then .nans newS.length
+  else .vals (newS.map fun x => x * normOld / normNew)
+
+/-- The three-way split of `truncate_singular_values` after the rule was applied:
+    `(new_s, s_trunc)` before renormalisation. -/
+def capSplit (s sTemp : List Rat) (maxBond : Option Nat) : List Rat × List Rat :=
+  match maxBond with
+  | some d =>
+    if sTemp.length > d then (sTemp.take d, s.drop d)
+    else if sTemp.length = 0 then (s.take 1, s.drop 1)
+    else (sTemp, s.drop sTemp.length)
+  | none =>
+    if sTemp.length = 0 then (s.take 1, s.drop 1)
+    else (sTemp, s.drop sTemp.length)
+
+/-- What the rule selects (`s_temp`). -/
+def selected (s : List Rat) (p : Params) : List Rat :=
+  if p.sumTrunc then sumTruncation s p.totalTol p.sumRenorm
+  else valueTruncation s p.totalTol p.relTol
+
+/-- `truncate_singular_values(s, svd_params)`; `none` is the `ValueError` for an empty vector. -/
+def truncate (s : List Rat) (p : Params) : Option (Kept × List Rat) :=
+  if s.length = 0 then none
+  else
+    let sTemp := selected s p
+    let (newS, sTrunc) := capSplit s sTemp p.maxBond
+    let kept := if p.renorm then renormalise s newS else .vals newS
+    some (kept, sTrunc)
+
 end Ptn.C10
